@@ -67,12 +67,42 @@ pub struct Out {
     pub count: u64,
     pub cap: u64,
 }
+
+/// The case being executed right now (set by `Out::begin`, cleared by `Out::case`). A watchdog
+/// thread turns a case that runs longer than VERIF_CASE_TIMEOUT seconds (default 120) into the
+/// outcome `hang`: it writes the inputs to `<case file>.hang` and ends the process with status 3,
+/// so that a change which makes the library loop forever is reported with its input instead of
+/// hanging the check.
+static CURRENT: std::sync::Mutex<Option<(String, std::time::Instant)>> = std::sync::Mutex::new(None);
+
+pub fn start_watchdog(case_file: &str) {
+    let hang_file = format!("{}.hang", case_file);
+    let _ = std::fs::remove_file(&hang_file);
+    let limit: u64 = std::env::var("VERIF_CASE_TIMEOUT").ok().and_then(|s| s.parse().ok()).unwrap_or(120);
+    std::thread::spawn(move || loop {
+        std::thread::sleep(std::time::Duration::from_millis(500));
+        let cur = CURRENT.lock().map(|g| g.clone()).unwrap_or(None);
+        if let Some((line, since)) = cur {
+            if since.elapsed().as_secs() >= limit {
+                let _ = std::fs::write(&hang_file, format!("{}\n", line));
+                std::process::exit(3);
+            }
+        }
+    });
+}
 impl Out {
     pub fn new(path: &str, cap: u64) -> Out {
         Out { w: BufWriter::new(File::create(path).expect("cannot create case file")), count: 0, cap }
     }
+    /// announces the case that is about to be executed (first statement of every `run`)
+    pub fn begin(&mut self, key: &str, inputs: &[String]) {
+        let mut line = String::from(key);
+        for i in inputs { line.push(' '); line.push_str(if i.is_empty() { "~" } else { i }); }
+        if let Ok(mut g) = CURRENT.lock() { *g = Some((line, std::time::Instant::now())); }
+    }
     /// one case = one line: `<key> <inputs…> => <observed…>`
     pub fn case(&mut self, key: &str, inputs: &[String], observed: &[String]) {
+        if let Ok(mut g) = CURRENT.lock() { *g = None; }
         let mut line = String::from(key);
         for i in inputs { line.push(' '); line.push_str(if i.is_empty() { "~" } else { i }); }
         line.push_str(" =>");
@@ -338,6 +368,7 @@ pub fn harness_main(gen: fn(Tier, &mut Rng64, &mut Out), run: fn(&str, &[String]
         let seed: u64 = args[3].parse().expect("seed");
         let cap: u64 = std::env::var("VERIF_CASE_CAP").ok().and_then(|s| s.parse().ok()).unwrap_or(u64::MAX);
         let mut out = Out::new(&args[4], cap);
+        start_watchdog(&args[4]);
         let mut rng = Rng64(seed ^ 0x5DEECE66D);
         // minimised past failures run first
         if let Ok(path) = std::env::var("VERIF_CORPUS") {
